@@ -24,6 +24,9 @@ CONFIGS = {
     "flush-self-busy": [(1, "op", 0, "read"), (2, "flush", 1, ""), (1, "flush", 1, "")],
     # a Tclunk held inside File.Close (class "none": nothing is ordered after it) and independent requests
     "clunk-held":    [(1, "op", 0, "clunk"), (2, "op", 0, "getattr"), (3, "op", 0, "walk")],
+    # extreme tag values are ordinary tags for every request but Tversion: a read carrying NOTAG (0xFFFF) flushed
+    # by a request with tag 0, itself flushed
+    "flush-notag":   [(65535, "op", 0, "read"), (0, "flush", 65535, ""), (3, "flush", 0, "")],
     "dup-tag":       [(1, "op", 0, "getattr"), (1, "op", 0, "read"), (2, "op", 0, "write")],
     "tag-reuse":     [(1, "op", 0, "getattr"), (2, "op", 0, "read"), (1, "op", 0, "walk")],
     "bad-frame":     [(1, "op", 0, "read"), (2, "bad", 0, ""), (3, "op", 0, "getattr")],
